@@ -121,12 +121,20 @@ func (t *tStructProto) structUnpack(m erpc.Message) error {
 	m.Meta().Parse(headers[HeaderMeta])
 
 	m.UnmarshalBody(nil)
-	s, ok := m.Body().(thrift.TStruct)
-	if !ok {
-		return fmt.Errorf("thrift codec: %T does not implement thrift.TStruct", m.Body())
-	}
-	if err = s.Read(t.tProtocol); err != nil {
-		return err
+	if m.Body() == nil {
+		// nobody receives the body (unknown route, vetoed by a plugin, reply to an unknown call):
+		// skip it, so that the message is answered (e.g. Not Found) instead of tearing the connection down
+		if err = t.tProtocol.Skip(thrift.STRUCT); err != nil {
+			return err
+		}
+	} else {
+		s, ok := m.Body().(thrift.TStruct)
+		if !ok {
+			return fmt.Errorf("thrift codec: %T does not implement thrift.TStruct", m.Body())
+		}
+		if err = s.Read(t.tProtocol); err != nil {
+			return err
+		}
 	}
 
 	if err = t.tProtocol.ReadMessageEnd(); err != nil {
